@@ -70,7 +70,7 @@ def run(rep, tier, seed):
         for k, (sc, c) in enumerate(cs):
             if not common.keep(k, 6):
                 c = dict(c)
-                c.pop("delay")
+                c.pop("delay", None)
             cs2.append((sc, c))
         cs = cs2
     e1.sweep(rep, cs, monitors_for, budgets)
